@@ -126,7 +126,7 @@ func vRecordStream(k, maxBody int) []byte {
 			l = vInt(0, maxBody)
 			have = l
 		case 1:
-			l = 16384 + vInt(0, 1) // 16384 legal, 16385 first refused value for plaintext
+			l = []int{16384, 16385, 18432, 18433}[vInt(0, 3)] // around the plaintext limit and around the largest record accepted (2^14+2048)
 			have = vInt(0, 2)
 		default:
 			l = 65535
